@@ -63,6 +63,14 @@ def cases(rng, tier):
                     continue
                 pty = rng.choice([INT, 4, 5, 2])
                 sl[-1]["props"] = [p for p in sl[-1]["props"] if p[0] != b"ErrorCode"] + [(b"ErrorCode", pty, rand_array(rng, pty, rows, "random"), rng.choice([PLAIN, RLE]))]
+        if i % 4 == 2 and t["cols"]:
+            # ... or inside the packed bits of a bit array: the last property of the last column is a bit-packed boolean array
+            from vlib import rand_array, BOOL
+            for sl in t["slices"]:
+                rows = len(sl[-1]["vals"])
+                if rows < 1:
+                    continue
+                sl[-1]["props"] = [p for p in sl[-1]["props"] if p[0] != b"IsInvalid"] + [(b"IsInvalid", BOOL, rand_array(rng, BOOL, rows, "random"), G.BIT)]
         layouts = None
         if i % 2:
             layouts = {}
